@@ -101,7 +101,7 @@ def run_hub(pid, a, rule, assumptions=()):
         if exh:
             # the enumerated sub-space (hubrun/exh.go): exhaustive only if no combination was cut, lost or diverged for good
             complete = exh.get("incomplete-combos", 0) == 0 and exh.get("lost-branch", 0) == 0
-            c.cov["exhaustive" + key] = {"exhaustive": bool(complete), "schedules": exh.get("schedules", 0), "combinations": exh.get("combos", 0),
+            c.cov["exhaustive_enumeration" + key] = {"exhaustive": bool(complete), "schedules": exh.get("schedules", 0), "combinations": exh.get("combos", 0),
                                           "incomplete_combinations": {k[len("incomplete:"):]: v for k, v in exh.items() if k.startswith("incomplete:")},
                                           "replay_divergences_retried": exh.get("divergence", 0), "late_arrivals_added": exh.get("late-arrivals", 0),
                                           "lost_branches": exh.get("lost-branch", 0), "stutter_pruned_steps": exh.get("stutter-pruned", 0),
